@@ -238,6 +238,8 @@ class OptionsEval:
                 st = M.stmt_of(n)
                 if a == "pop":
                     k = const_str(n.args[0]) if n.args else None
+                    if k is None and n.args:
+                        k = const_str(M.resolve(n.args[0]))
                     if k is None:
                         self.odd.append(f"`{norm(n, 50)}` removes an option that is not a constant name")
                     else:
@@ -264,6 +266,8 @@ class OptionsEval:
                     self.odd.append(f"`{norm(n, 50)}` changes the options in a form that is not read")
             elif isinstance(n, ast.Subscript) and isinstance(n.value, ast.Name) and n.value.id == name and isinstance(n.ctx, (ast.Store, ast.Del)):
                 k = const_str(n.slice)
+                if k is None and isinstance(n.slice, ast.expr):
+                    k = const_str(M.resolve(n.slice))  # a local bound once to the option's name
                 if k is None:
                     self.odd.append(f"`{norm(M.stmt_of(n), 60)}` writes an option whose name is not a constant")
                 elif isinstance(n.ctx, ast.Del):
